@@ -1100,6 +1100,10 @@ func tagsCases(o *hx.Out) {
 }
 
 func main() {
+	if len(os.Args) > 1 && os.Args[1] == "--child" {
+		oomChildMain()
+		return
+	}
 	debug.SetMemoryLimit(8 << 30)
 	o := hx.Open()
 	defer o.Close()
@@ -1110,6 +1114,10 @@ func main() {
 			fmt.Fprintf(os.Stderr, "%s: %v\n", what, time.Since(t0))
 		}
 		t0 = time.Now()
+	}
+	if os.Getenv("C08_ONLY") == "oom" { // development aid: the child-process stream alone
+		oomCases(o)
+		return
 	}
 	execCases(o)
 	lap("exec")
@@ -1125,6 +1133,8 @@ func main() {
 	lap("trim")
 	siteCases(o)
 	lap("sites")
+	oomCases(o)
+	lap("oom")
 	var hs []hostile
 	hs = append(hs, frames(o)...)
 	hs = append(hs, fields(o)...)
